@@ -879,6 +879,12 @@ def gen_tecmp_frames(tier, rng):
         for dt in [2, 4, rng.randrange(0, 0x101), 0x8000, 0xFFFF, 0xFF00, 0x00FF, rng.getrandbits(16)]:
             pl = rng.choice([tecmp_can_payload(rng, 8), tecmp_lin_payload(rng, 4), tecmp_cm_payload(rng), tecmp_bus_payload(rng, 2)])
             out.append((tecmp_frame(rng, mt, dt, pl), "all-types"))
+    # data messages whose 16-bit data type only ALIASES a supported kind in one of its bytes (0xNN02 / 0xNN03 / 0xNN04, 0x0200 ...): the
+    # payload is well-formed for the aliased kind, so a dispatch on a narrowed or byte-swapped data type converts it
+    for lo, mk in ((2, lambda: tecmp_can_payload(rng, 8)), (3, lambda: tecmp_can_payload(rng, 12)), (4, lambda: tecmp_lin_payload(rng, 4, cks=1))):
+        for hi in (1, 2, 0x80, 0xFF, rng.randrange(1, 256)):
+            out.append((tecmp_frame(rng, 3, (hi << 8) | lo, mk()), "aliased-data-type"))
+        out.append((tecmp_frame(rng, 3, lo << 8, mk()), "aliased-data-type"))
     if tier != "quick":
         for dt in range(0, 0x101):
             out.append((tecmp_frame(rng, 3, dt, tecmp_can_payload(rng, 8)), "all-types"))
